@@ -1,5 +1,6 @@
 import Cirbo.Proofs.PassMuo
 import Cirbo.Proofs.PassMdg
+import Cirbo.Proofs.PassMeg
 /-!
 # Pipelines of simplification passes preserve function and interface
 -/
@@ -11,60 +12,66 @@ structure Preserves (c c' : Circuit) : Prop where
   wfs : WFS c'
   inputs : c'.inputs.Sublist c.inputs
   outputs : c'.outputs.length = c.outputs.length
+  ar : ArOK c → ArOK c'
   val : ∀ b v, IsValB c b v → IsValB c' b v ∧ c'.outputs.map v = c.outputs.map v
 
 theorem Preserves.refl {c : Circuit} (hw : WFS c) : Preserves c c :=
-  ⟨hw, List.Sublist.refl _, rfl, fun _ _ hv => ⟨hv, rfl⟩⟩
+  ⟨hw, List.Sublist.refl _, rfl, fun h => h, fun _ _ hv => ⟨hv, rfl⟩⟩
 
 theorem Preserves.trans {a b c : Circuit} (h1 : Preserves a b) (h2 : Preserves b c) : Preserves a c :=
-  ⟨h2.wfs, h2.inputs.trans h1.inputs, h2.outputs.trans h1.outputs, fun bb v hv => by
+  ⟨h2.wfs, h2.inputs.trans h1.inputs, h2.outputs.trans h1.outputs, fun h => h2.ar (h1.ar h), fun bb v hv => by
     obtain ⟨v1, o1⟩ := h1.val bb v hv
     obtain ⟨v2, o2⟩ := h2.val bb v v1
     exact ⟨v2, o2.trans o1⟩⟩
 
 theorem rrg_preserves {a : Bool} {c c' : Circuit} (hw : WFS c) (h : rrg a c = .ok c') : Preserves c c' := by
-  obtain ⟨w, _, hval, ho, hi, _, _, _⟩ := rrg_spec hw h
-  exact ⟨w, by rw [hi]; exact List.filter_sublist, by rw [ho], fun b v hv => ⟨hval b v hv, by rw [ho]⟩⟩
+  obtain ⟨w, hsub, hval, ho, hi, _, _, _⟩ := rrg_spec hw h
+  exact ⟨w, by rw [hi]; exact List.filter_sublist, by rw [ho], fun ha g hg => ha g (hsub g hg),
+    fun b v hv => ⟨hval b v hv, by rw [ho]⟩⟩
 
 theorem muo_preserves {c c' : Circuit} (hw : WFS c) (h : muo c = .ok c') : Preserves c c' := by
-  obtain ⟨w, hi, ho, _, hval⟩ := muo_spec hw h
-  exact ⟨w, by rw [hi]; exact List.Sublist.refl _, ho, hval⟩
+  obtain ⟨w, hi, ho, sh, hval⟩ := muo_spec hw h
+  exact ⟨w, by rw [hi]; exact List.Sublist.refl _, ho, arOK_of_shape sh, hval⟩
 
 theorem mdg_preserves {c c' : Circuit} (hw : WFS c) (h : mdg c = .ok c') : Preserves c c' := by
-  obtain ⟨w, hi, ho, hval⟩ := mdg_spec hw h
-  exact ⟨w, by rw [hi]; exact List.Sublist.refl _, ho, hval⟩
+  obtain ⟨w, hi, ho, sh, hval⟩ := mdg_spec hw h
+  exact ⟨w, by rw [hi]; exact List.Sublist.refl _, ho, arOK_of_shape sh, hval⟩
 
-/-- passes whose preservation theorem is proved -/
+theorem meg_preserves {c c' : Circuit} (hw : WFS c) (har : ArOK c) (h : meg c = .ok c') : Preserves c c' := by
+  obtain ⟨w, hi, ho, sh, hval⟩ := meg_spec' hw har h
+  exact ⟨w, by rw [hi]; exact List.Sublist.refl _, ho, arOK_of_shape sh, hval⟩
+
+/-- the four passes (compositions are flattened by linearisation before they run) -/
 def Proved : Tr → Prop
   | .rrg _ => True
   | .muo => True
   | .mdg => True
-  | .meg => False
+  | .meg => True
   | .comp _ => False
 
-theorem transform1_preserves {t : Tr} (ht : Proved t) {c c' : Circuit} (hw : WFS c) (h : transform1 t c = .ok c') :
-    Preserves c c' := by
+theorem transform1_preserves {t : Tr} (ht : Proved t) {c c' : Circuit} (hw : WFS c) (har : ArOK c)
+    (h : transform1 t c = .ok c') : Preserves c c' := by
   cases t with
   | rrg a => exact rrg_preserves hw h
   | muo => exact muo_preserves hw h
   | mdg => exact mdg_preserves hw h
-  | meg => exact absurd ht id
+  | meg => exact meg_preserves hw har h
   | comp ts => exact absurd ht id
 
-theorem runSeq_preserves : ∀ (ts : List Tr) {c c' : Circuit}, WFS c → (∀ t ∈ ts, Proved t) →
+theorem runSeq_preserves : ∀ (ts : List Tr) {c c' : Circuit}, WFS c → ArOK c → (∀ t ∈ ts, Proved t) →
     runSeq (.ok c) ts = .ok c' → Preserves c c' := by
   intro ts
   induction ts with
-  | nil => intro c c' hw _ h; cases h; exact .refl hw
+  | nil => intro c c' hw _ _ h; cases h; exact .refl hw
   | cons t r ih =>
-    intro c c' hw hts h
+    intro c c' hw har hts h
     have h' : runSeq (trStepR (.ok c) t) r = .ok c' := h
     cases h1 : trStepR (.ok c) t with
     | error e => rw [h1, runSeq_error] at h'; cases h'
     | ok c1 =>
       rw [h1] at h'
-      have p1 := transform1_preserves (hts t (by simp)) hw (show transform1 t c = .ok c1 from h1)
-      exact p1.trans (ih p1.wfs (fun t ht => hts t (by simp [ht])) h')
+      have p1 := transform1_preserves (hts t (by simp)) hw har (show transform1 t c = .ok c1 from h1)
+      exact p1.trans (ih p1.wfs (p1.ar har) (fun t ht => hts t (by simp [ht])) h')
 
 theorem mem_reduceIdem : ∀ (ts : List Tr) (prev : Option Tr) (t : Tr), t ∈ reduceIdem prev ts → t ∈ ts := by
   intro ts
@@ -89,17 +96,38 @@ theorem mem_reduceIdem : ∀ (ts : List Tr) (prev : Option Tr) (t : Tr), t ∈ r
 
 /-- `apply_transformers` (hence `Transformer.transform`, the pipe operator and `cleanup` light) over
 passes whose theorems are proved: same function, same interface, invariant kept -/
-theorem applyTransformers_preserves (ts : List Tr) {c c' : Circuit} (hw : WFS c)
+theorem applyTransformers_preserves (ts : List Tr) {c c' : Circuit} (hw : WFS c) (har : ArOK c)
     (hts : ∀ t ∈ linearize.linearizeList ts, Proved t) (h : applyTransformers c ts = .ok c') : Preserves c c' := by
   rw [applyTransformers_def] at h
-  exact runSeq_preserves _ hw (fun t ht => hts t (mem_reduceIdem _ _ _ ht)) h
+  exact runSeq_preserves _ hw har (fun t ht => hts t (mem_reduceIdem _ _ _ ht)) h
 
-/-- `cleanup(circuit)` (light): RRG, MUO, MDG with their implied removals -/
-theorem cleanup_light_preserves {c c' : Circuit} (hw : WFS c) (h : cleanup c false = .ok c') : Preserves c c' := by
+mutual
+/-- linearisation only produces the four passes -/
+theorem linearize_proved : ∀ t : Tr, ∀ x ∈ linearize t, Proved x
+  | .rrg a => by intro x hx; simp [linearize] at hx; subst hx; trivial
+  | .muo => by intro x hx; simp [linearize] at hx; rcases hx with rfl | rfl <;> trivial
+  | .mdg => by intro x hx; simp [linearize] at hx; rcases hx with rfl | rfl <;> trivial
+  | .meg => by intro x hx; simp [linearize] at hx; rcases hx with rfl | rfl <;> trivial
+  | .comp ts => by intro x hx; simp only [linearize] at hx; exact linearizeList_proved ts x hx
+theorem linearizeList_proved : ∀ ts : List Tr, ∀ x ∈ linearize.linearizeList ts, Proved x
+  | [] => by intro x hx; simp [linearize.linearizeList] at hx
+  | t :: r => by
+    intro x hx
+    simp only [linearize.linearizeList, List.mem_append] at hx
+    rcases hx with hx | hx
+    · exact linearize_proved t x hx
+    · exact linearizeList_proved r x hx
+end
+
+/-- **every pipeline** — any list of passes and nested compositions -/
+theorem pipeline_preserves (ts : List Tr) {c c' : Circuit} (hw : WFS c) (har : ArOK c)
+    (h : applyTransformers c ts = .ok c') : Preserves c c' :=
+  applyTransformers_preserves ts hw har (linearizeList_proved ts) h
+
+/-- `cleanup(circuit, use_heavy=…)`, light and heavy -/
+theorem cleanup_preserves {c c' : Circuit} {heavy : Bool} (hw : WFS c) (har : ArOK c) (h : cleanup c heavy = .ok c') :
+    Preserves c c' := by
   unfold cleanup at h
-  refine applyTransformers_preserves _ hw ?_ h
-  intro t ht
-  simp [linearize.linearizeList, linearize] at ht
-  rcases ht with rfl | rfl | rfl | rfl | rfl <;> exact trivial
+  exact pipeline_preserves _ hw har h
 
 end Cirbo
